@@ -28,10 +28,11 @@
        hypotheses as in C01.
      * the two refutations.
      * interp_policy: proved in full.
-     * constraints_genuine_partial: the "every reported constraint holds" half of constraints_exact.
-   constraints_exact and interp_complete are checked per run by the oracle (tools/props/c13.py),
-   not proved. *)
-From Verif Require Import Exec Ser Ast Types TypeCheck InterpModel InterpRefine InterpSound InterpRefuted InterpMain InterpPolicy InterpGenuine.
+     * constraints_exact_partial: constraints_exact under the same side conditions and coverage as
+       interp_sound_partial (without them the script does not even accept).
+     * constraints_genuine_partial: every constraint yielded holds, with no side condition at all.
+   interp_complete is checked per run by the oracle (tools/props/c13.py), not proved. *)
+From Verif Require Import Exec ExecTrace Ser Ast Types TypeCheck InterpModel InterpRefine InterpSound InterpRefuted InterpMain InterpPolicy InterpGenuine.
 Local Open Scope N_scope.
 
 Theorem interp_is_recursive :
@@ -60,6 +61,22 @@ Theorem interp_policy :
     interp e ke kp m st = IAccept cs -> psat ke cs m = true.
 Proof. exact interp_policy_holds. Qed.
 Print Assumptions interp_policy.
+
+(* constraints_exact under the side conditions of interp_sound_partial: the instrumented
+   execution (Script/ExecTrace.v) of the encoded script accepts, and the conditions the executed
+   path verified -- signature checks (CHECKSIG / CHECKSIGADD / matched CHECKMULTISIG pairs),
+   preimage checks, passed CLTV / CSV -- are exactly the reported constraints, in the same order
+   ([check_of] forgets the key hash of a PublicKeyHash constraint). *)
+Theorem constraints_exact_partial :
+  forall (e : env) (ke : keyenv) (kp : bytes -> bool),
+    num_facts -> keys_ok e ke kp ->
+    e_sequence e <> SEQ_FINAL -> 2 <= e_txversion e ->
+    forall (m : ms) (t : ty) (items : list bytes) (cs : list constr),
+      type_of m = ROk t -> c_base (t_corr t) = BB -> iwf e m -> icover m -> items_small items ->
+      interp e ke kp m (astack_of_items items) = IAccept cs ->
+      accepts_tr e (enc ke m) (rev items) = Some (map check_of cs).
+Proof. exact interp_exact_sidecond. Qed.
+Print Assumptions constraints_exact_partial.
 
 (* half of constraints_exact: every constraint yielded -- by an accepted or a rejected run, for
    every miniscript -- was really checked and holds ([cvalid]: the signature verifies for that key,
